@@ -13,7 +13,7 @@ ASSUMPTIONS = [
     'weights positive',
 ]
 OUTSIDE = ['degrees > 3', 'volumes (the library has no volume split)', 'more than 3 distinct interior knots']
-BOUNDS = {'quick': 'curves p<=3 KQ patterns; surfaces degrees<=2 split u/v, decompose u/v/uv; shifted knot vectors; split after a sibling was split / decomposed',
+BOUNDS = {'quick': 'curves p<=3 KQ patterns; surfaces degrees<=2 split u/v, decompose u/v/uv; shifted knot vectors; split after a sibling was split / decomposed; tuple knot vectors incl. splits on full-multiplicity knots',
           'thorough': 'curves p<=4; surfaces to (3,2)'}
 
 
